@@ -10,7 +10,7 @@ PROP = "C04"
 
 def run(tier, seed):
     v = vf.Verdict(PROP, tier, seed)
-    cov, ass1 = ledger_common.run_ledger(PROP, ["bridge"], tier, seed, verdict=v)
+    cov, ass1 = ledger_common.run_ledger(PROP, ["bridge", "replay"], tier, seed, verdict=v)
     cov2, ass2 = ibc_common.run_ibc(PROP, tier, seed, profiles=("recv",), only_devs={"F1"}, verdict=v)
     cov["states"] += cov2["states"]
     cov["transitions"] += cov2["transitions"]
